@@ -118,6 +118,21 @@ def elementwise(I, op, a, b, node):
     sb = b.shape if isinstance(b, Arr) else ()
     shape = broadcast(I, sa, sb, node)
     va, vb = val_of(a), val_of(b)
+    boolish = (bool, Pred, BoolCombo)
+    if isinstance(op, (ast.BitAnd, ast.BitOr)) and isinstance(va, boolish) and isinstance(vb, boolish):
+        if isinstance(va, bool) and isinstance(vb, bool):
+            val = (va and vb) if isinstance(op, ast.BitAnd) else (va or vb)
+        elif isinstance(va, bool):
+            val = (vb if va else False) if isinstance(op, ast.BitAnd) else (True if va else vb)
+        elif isinstance(vb, bool):
+            val = (va if vb else False) if isinstance(op, ast.BitAnd) else (True if vb else va)
+        else:
+            val = BoolCombo("and" if isinstance(op, ast.BitAnd) else "or", [va, vb])
+        meta = {}
+        for x in (a, b):
+            if isinstance(x, Arr) and "ident" in x.meta:
+                meta.setdefault("ident", x.meta["ident"])
+        return Arr(shape, val, "bool", meta)
     if va is BOT or vb is BOT:
         val = BOT
     elif isinstance(va, Unknown) or isinstance(vb, Unknown):
@@ -515,6 +530,8 @@ def store(I, arr, idx, v, node, env):
     if level == "all":
         new.val = sv
         new.meta.pop("lvl0", None)
+        if isinstance(v, Arr) and "lvl0" in v.meta and level_axis(arr) is not None:
+            new.meta["lvl0"] = v.meta["lvl0"]  # the stored value itself differs at level slot 0
     elif level[0] == "const":
         if level[1] == 0 and level_axis(arr) is not None:
             new.meta["lvl0"] = sv
